@@ -14,11 +14,13 @@ import (
 	"io"
 	"math"
 	"net"
+	"reflect"
 	"sort"
 	"strconv"
 	"strings"
 	"sync"
 	"time"
+	"unsafe"
 
 	"github.com/VKCOM/tl/pkg/rpc/internal/gen/tl"
 	"github.com/VKCOM/tl/pkg/rpc/internal/gen/tlexactlyOnce"
@@ -297,7 +299,7 @@ func vParseReq(wire []byte) string {
 		to = strconv.FormatInt(int64(hctx.timeout/time.Millisecond), 10)
 	}
 	return fmt.Sprintf("ok %d %d %s %d %s %d %s %s %s", uint64(hctx.queryID), uint64(hctx.actorID), sBool(hctx.bodyFormatTL2), hctx.reqTag,
-		sBool(hctx.noResult), hctx.requestExtraFieldsmask, to, sHexB(hctx.Request), sReqExtra(&hctx.RequestExtra))
+		sBool(hctx.noResult), vMask(hctx), to, sHexB(hctx.Request), sReqExtra(&hctx.RequestExtra))
 }
 
 // client side of a response: the real handlePacket -> finishCall -> parseResponseExtra on a bare clientConn
@@ -352,7 +354,42 @@ func vWire(buf []byte, extraStart int) []byte {
 
 // ---- end-to-end loopback: a real rpc.Server and rpc.Client over TCP on 127.0.0.1
 
+// The snapshot of the request's extra flags taken by ParseInvokeReq is a private field; it is read through reflection so
+// that a refactoring which removes or renames it does not take the whole correspondence down (the harness then falls back to
+// the public RequestExtra.Flags, and the end-to-end legs decide whether extras still arrive unchanged).
+func vMaskField(hctx *HandlerContext) (reflect.Value, bool) {
+	for _, root := range []reflect.Value{reflect.ValueOf(hctx).Elem()} {
+		if f := root.FieldByName("requestExtraFieldsmask"); f.IsValid() && f.Kind() == reflect.Uint32 {
+			return reflect.NewAt(f.Type(), unsafe.Pointer(f.UnsafeAddr())).Elem(), true
+		}
+	}
+	return reflect.Value{}, false
+}
+
+func vMask(hctx *HandlerContext) uint32 {
+	if f, ok := vMaskField(hctx); ok {
+		return uint32(f.Uint())
+	}
+	return hctx.RequestExtra.Flags
+}
+
+func vSetMask(hctx *HandlerContext, m uint32) {
+	if f, ok := vMaskField(hctx); ok {
+		f.SetUint(uint64(m))
+		return
+	}
+	hctx.RequestExtra.Flags = m
+}
+
+type vCanceller struct{}
+
+func (vCanceller) CancelLongpoll(LongpollHandle) {}
+func (vCanceller) WriteEmptyResponse(LongpollHandle, *HandlerContext) error {
+	return ErrLongpollNoEmptyResponse
+}
+
 type vScript struct {
+	longpoll bool
 	body  []byte
 	extra ResponseExtra
 	err   error
@@ -383,10 +420,39 @@ func vHandler(_ context.Context, hctx *HandlerContext) error {
 	}
 	sc.calls++
 	sc.seen = fmt.Sprintf("%d %s %d %s %d %s %s %s", uint64(hctx.ActorID()), sBool(hctx.BodyFormatTL2()), hctx.RequestTag(),
-		sBool(hctx.noResult), hctx.requestExtraFieldsmask, to, sHexB(hctx.Request), sReqExtra(&hctx.RequestExtra))
+		sBool(hctx.noResult), vMask(hctx), to, sHexB(hctx.Request), sReqExtra(&hctx.RequestExtra))
+	if sc.longpoll {
+		// answer through the long-poll path: the HandlerContext handed out by FinishLongpoll is a fresh one restored from
+		// what toLongpollContext saved
+		lh, err := hctx.StartLongpoll(vCanceller{})
+		if err != nil {
+			return err
+		}
+		go func() {
+			h, ok := lh.FinishLongpoll()
+			if !ok {
+				return
+			}
+			h.Response = append(h.Response[:0], sc.body...)
+			h.ResponseExtra = sc.extra
+			h.SendLongpollResponse(sc.err)
+		}()
+		return nil
+	}
 	hctx.Response = append(hctx.Response[:0], sc.body...)
 	hctx.ResponseExtra = sc.extra
 	return sc.err
+}
+
+// long polls may only be started from the SyncHandler; every other scripted call falls through to the ordinary handler
+func vSyncHandler(ctx context.Context, hctx *HandlerContext) error {
+	vMu.Lock()
+	sc := vCur
+	vMu.Unlock()
+	if sc == nil || !sc.longpoll {
+		return ErrNoHandler
+	}
+	return vHandler(ctx, hctx)
 }
 
 func vStartE2E() error {
@@ -399,7 +465,7 @@ func vStartE2E() error {
 		return err
 	}
 	quiet := func(string, ...any) {}
-	vSrv = NewServer(ServerWithHandler(vHandler), ServerWithLogf(quiet), ServerWithDefaultResponseTimeout(vDefaultTimeout),
+	vSrv = NewServer(ServerWithHandler(vHandler), ServerWithSyncHandler(vSyncHandler), ServerWithLogf(quiet), ServerWithDefaultResponseTimeout(vDefaultTimeout),
 		ServerWithTrustedSubnetGroups([][]string{{"127.0.0.0/8"}}))
 	go func() { _ = vSrv.Serve(ln) }()
 	vAddr = ln.Addr().String()
@@ -437,7 +503,7 @@ func vHandlerErr(w string) (error, bool) {
 }
 
 // rpcextra.e2e <actor> <tl2> <body> <14 reqextra> <err> <respbody> <12 resextra>
-func vE2E(a []string) string {
+func vE2E(a []string, longpoll bool) string {
 	if err := vStartE2E(); err != nil {
 		return "e2e-unavailable"
 	}
@@ -445,7 +511,7 @@ func vE2E(a []string) string {
 	if !ok {
 		return "bad-op"
 	}
-	sc := &vScript{body: vHex(a[18]), extra: vResExtra(a[19:]), err: herr}
+	sc := &vScript{longpoll: longpoll, body: vHex(a[18]), extra: vResExtra(a[19:]), err: herr}
 	req := vCli.GetRequest()
 	req.Body = append(req.Body[:0], vHex(a[2])...)
 	req.ActorID = int64(vU64(a[0]))
@@ -646,7 +712,7 @@ func VerifRpcextraHandle(line string) (res string) {
 	case op == "rpcextra.resp" && len(a) == 19:
 		hctx := &HandlerContext{}
 		hctx.queryID = int64(vU64(a[0]))
-		hctx.requestExtraFieldsmask = vU32(a[1])
+		vSetMask(hctx, vU32(a[1]))
 		hctx.bodyFormatTL2 = vBool(a[2])
 		hctx.noResult = vBool(a[3])
 		hctx.reqTag = vU32(a[4])
@@ -680,7 +746,9 @@ func VerifRpcextraHandle(line string) (res string) {
 		}
 		return fmt.Sprintf("ok %s %d %d %s", sHexB(hctx.Response), hctx.extraStart, hctx.ResponseExtra.Flags, vParseResp(hctx.bodyFormatTL2, vWire(hctx.Response, hctx.extraStart)))
 	case op == "rpcextra.e2e" && len(a) == 31:
-		return vE2E(a)
+		return vE2E(a, false)
+	case op == "rpcextra.e2el" && len(a) == 31: // the same call answered through StartLongpoll/FinishLongpoll/SendLongpollResponse
+		return vE2E(a, true)
 	case op == "rpcextra.rparse" && len(a) == 2:
 		return vErrPrefix(vParseResp(vBool(a[0]), vHex(a[1])))
 	case op == "rpcextra.xread" && len(a) == 1:
